@@ -232,7 +232,7 @@ def pushBack (element : Nat) : M Nat := do
   let node ← alloc { next := none, prev := none, elem := element }
   pushBackBox node
 
-/-- `unsafe fn move_to_back(&mut self, mut node: NonNull<DeqNode<T>>)` -/
+/-- `fn move_to_back(&mut self, mut node: NonNull<DeqNode<T>>)` -/
 def moveToBack (node : Nat) : M Unit := do
   touch node                                    -- node.as_ref()
   if (← isTail node) then pure ()               -- already at the tail: return
@@ -265,7 +265,7 @@ def moveFrontToBack : M Unit := do
   | some node => moveToBack node
   | none => pure ()
 
-/-- `unsafe fn unlink(&mut self, mut node: NonNull<DeqNode<T>>)` -/
+/-- `fn unlink(&mut self, mut node: NonNull<DeqNode<T>>)` -/
 def unlink (node : Nat) : M Unit := do
   leaveCursor node                              -- if self.is_at_cursor(node.as_ref()) {..}
   touch node                                    -- let node = node.as_mut();
@@ -283,7 +283,7 @@ def unlink (node : Nat) : M Unit := do
   setNext node none                             -- node.next = None;
   decLen                                        -- self.len -= 1;
 
-/-- `unsafe fn unlink_and_drop(&mut self, node: NonNull<DeqNode<T>>)` -/
+/-- `fn unlink_and_drop(&mut self, node: NonNull<DeqNode<T>>)` -/
 def unlinkAndDrop (node : Nat) : M Unit := do
   unlink node
   let _ ← free node                             -- drop(Box::from_raw(node.as_ptr()))
